@@ -45,17 +45,19 @@ type deferred struct {
 }
 
 type Frame struct {
-	fn        *ssa.Function
-	info      *fnInfo
-	env       []Value
-	block     *ssa.BasicBlock
-	prev      *ssa.BasicBlock
-	defers    []deferred
-	panicking *goPanic
-	visits    map[*ssa.BasicBlock]int
-	result    Value
-	caller    *Frame
-	thread    *Thread
+	fn         *ssa.Function
+	info       *fnInfo
+	env        []Value
+	block      *ssa.BasicBlock
+	prev       *ssa.BasicBlock
+	defers     []deferred
+	panicking  *goPanic
+	visits     map[*ssa.BasicBlock]int
+	visitDec   map[*ssa.BasicBlock]int
+	concVisits map[*ssa.BasicBlock]int
+	result     Value
+	caller     *Frame
+	thread     *Thread
 }
 
 type Interp struct {
@@ -929,7 +931,7 @@ func (it *Interp) ensureInit(pkg *ssa.Package) {
 
 // runInit interprets the synthesized package initialiser: variable initialisers only.
 func (it *Interp) runInit(fn *ssa.Function) {
-	fr := &Frame{fn: fn, info: it.info(fn), visits: map[*ssa.BasicBlock]int{}, thread: it.cur}
+	fr := &Frame{fn: fn, info: it.info(fn), visits: map[*ssa.BasicBlock]int{}, visitDec: map[*ssa.BasicBlock]int{}, concVisits: map[*ssa.BasicBlock]int{}, thread: it.cur}
 	fr.env = make([]Value, fr.info.n)
 	// Skip the init guard: start at the block that follows the guard check ("init.start").
 	start := fn.Blocks[0]
@@ -977,7 +979,7 @@ func (it *Interp) call(fn *ssa.Function, args []Value, env []Value) (result Valu
 	} else if it.funcHits != nil && fn.Origin() != nil {
 		it.funcHits[fn.String()] = true
 	}
-	fr := &Frame{fn: fn, info: it.info(fn), visits: map[*ssa.BasicBlock]int{}, thread: it.cur}
+	fr := &Frame{fn: fn, info: it.info(fn), visits: map[*ssa.BasicBlock]int{}, visitDec: map[*ssa.BasicBlock]int{}, concVisits: map[*ssa.BasicBlock]int{}, thread: it.cur}
 	fr.env = make([]Value, fr.info.n)
 	for i, p := range fn.Params {
 		if i < len(args) {
@@ -1026,10 +1028,23 @@ func (it *Interp) runFrame(fr *Frame, isInit bool) (result Value) {
 	}()
 	for {
 		if fr.visits != nil {
-			fr.visits[fr.block]++
-			if fr.visits[fr.block] > it.cfg.Unwind {
-				panic(pathEnd{"unwind", fmt.Sprintf("unwinding bound %d reached in %s block %d", it.cfg.Unwind, fr.fn, fr.block.Index)})
+			// The unwinding bound counts revisits of a block between which a solver-relevant decision was
+			// taken (loops whose trip count depends on symbolic data). Revisits with no decision in between
+			// are concrete iterations (table initialisers, fixed-size copies): they are bounded by the much
+			// larger concrete bound and by the step budget.
+			nd := len(it.decisions)
+			if last, seen := fr.visitDec[fr.block]; seen && last == nd {
+				fr.concVisits[fr.block]++
+				if fr.concVisits[fr.block] > it.cfg.UnwindConcrete {
+					panic(pathEnd{"unwind", fmt.Sprintf("concrete iteration bound %d reached in %s block %d", it.cfg.UnwindConcrete, fr.fn, fr.block.Index)})
+				}
+			} else {
+				fr.visits[fr.block]++
+				if fr.visits[fr.block] > it.cfg.Unwind {
+					panic(pathEnd{"unwind", fmt.Sprintf("unwinding bound %d reached in %s block %d", it.cfg.Unwind, fr.fn, fr.block.Index)})
+				}
 			}
+			fr.visitDec[fr.block] = nd
 		}
 		var next *ssa.BasicBlock
 		done := false
